@@ -10,6 +10,12 @@ From OdakV Require Import Base.RealAux Wave.Fields Wave.Kernels.
 From Run Require Import GenC06.
 Open Scope R_scope.
 
+(* equality of field terms up to commutativity / associativity of the pointwise product *)
+Ltac field_eq :=
+  first [ reflexivity
+        | match goal with |- ?f ?a = ?f ?b => apply (f_equal f); field_eq end
+        | (let i := fresh "i" in let j := fresh "j" in extensionality i; extensionality j; unfold fmul, fadd, fscal, fone, fzero; ring) ].
+
 Section T.
 Variables F Finv S Sinv PAD CROP : fld -> fld.
 Variable KER : R -> R -> fld.
@@ -17,21 +23,26 @@ Variables (u A : fld) (lam0 lam1 z0 z1 zm off : R).
 Notation model K := (CROP (custom F Finv S Sinv (PAD u) K A)).
 
 Lemma fwd_miss_1_0 : p_fwd_miss_1_0 F Finv S Sinv PAD CROP KER u A lam0 lam1 z0 z1 zm off = model (KER lam1 z0).
-Proof. reflexivity. Qed.
+Proof. unfold p_fwd_miss_1_0, custom. field_eq. Qed.
 Lemma fwd_miss_0_1 : p_fwd_miss_0_1 F Finv S Sinv PAD CROP KER u A lam0 lam1 z0 z1 zm off = model (KER lam0 z1).
-Proof. reflexivity. Qed.
+Proof. unfold p_fwd_miss_0_1, custom. field_eq. Qed.
 Lemma fwd_hit_1_0 : p_fwd_hit_1_0 F Finv S Sinv PAD CROP KER u A lam0 lam1 z0 z1 zm off = p_fwd_miss_1_0 F Finv S Sinv PAD CROP KER u A lam0 lam1 z0 z1 zm off.
-Proof. reflexivity. Qed.
+Proof. unfold p_fwd_hit_1_0, p_fwd_miss_1_0, custom. field_eq. Qed.
 Lemma fwd_hit_0_1 : p_fwd_hit_0_1 F Finv S Sinv PAD CROP KER u A lam0 lam1 z0 z1 zm off = p_fwd_miss_0_1 F Finv S Sinv PAD CROP KER u A lam0 lam1 z0 z1 zm off.
-Proof. reflexivity. Qed.
+Proof. unfold p_fwd_hit_0_1, p_fwd_miss_0_1, custom. field_eq. Qed.
 Lemma baf_miss_1_0 : p_baf_miss_1_0 F Finv S Sinv PAD CROP KER u A lam0 lam1 z0 z1 zm off = model (fmul (KER lam1 zm) (KER lam1 (- (zm + off - z0)))).
-Proof. reflexivity. Qed.
+Proof. unfold p_baf_miss_1_0, custom. field_eq. Qed.
 Lemma baf_miss_0_1 : p_baf_miss_0_1 F Finv S Sinv PAD CROP KER u A lam0 lam1 z0 z1 zm off = model (fmul (KER lam0 zm) (KER lam0 (- (zm + off - z1)))).
-Proof. reflexivity. Qed.
+Proof. unfold p_baf_miss_0_1, custom. field_eq. Qed.
 Lemma baf_hit_1_0 : p_baf_hit_1_0 F Finv S Sinv PAD CROP KER u A lam0 lam1 z0 z1 zm off = p_baf_miss_1_0 F Finv S Sinv PAD CROP KER u A lam0 lam1 z0 z1 zm off.
-Proof. reflexivity. Qed.
+Proof. unfold p_baf_hit_1_0, p_baf_miss_1_0, custom. field_eq. Qed.
 Lemma baf_hit_0_1 : p_baf_hit_0_1 F Finv S Sinv PAD CROP KER u A lam0 lam1 z0 z1 zm off = p_baf_miss_0_1 F Finv S Sinv PAD CROP KER u A lam0 lam1 z0 z1 zm off.
-Proof. reflexivity. Qed.
+Proof. unfold p_baf_hit_0_1, p_baf_miss_0_1, custom. field_eq. Qed.
+
+Lemma fwd_miss_0_1_at za zb : p_fwd_miss_0_1 F Finv S Sinv PAD CROP KER u A lam0 lam1 za zb zm off = model (KER lam0 zb).
+Proof. unfold p_fwd_miss_0_1, custom. field_eq. Qed.
+Lemma fwd_miss_1_0_at za zb : p_fwd_miss_1_0 F Finv S Sinv PAD CROP KER u A lam0 lam1 za zb zm off = model (KER lam1 za).
+Proof. unfold p_fwd_miss_1_0, custom. field_eq. Qed.
 
 (* unit-modulus kernels with additive phase: back and forth = forward by the net distance *)
 Variable ph : R -> nat -> nat -> R -> R.
@@ -42,8 +53,7 @@ Theorem traced_back_and_forth_is_net :
   p_baf_miss_1_0 F Finv S Sinv PAD CROP KER u A lam0 lam1 z0 z1 zm off = p_fwd_miss_1_0 F Finv S Sinv PAD CROP KER u A lam0 lam1 (z0 - off) z1 zm off.
 Proof.
   rewrite baf_miss_0_1, baf_miss_1_0.
-  change (p_fwd_miss_0_1 F Finv S Sinv PAD CROP KER u A lam0 lam1 z0 (z1 - off) zm off) with (model (KER lam0 (z1 - off))).
-  change (p_fwd_miss_1_0 F Finv S Sinv PAD CROP KER u A lam0 lam1 (z0 - off) z1 zm off) with (model (KER lam1 (z0 - off))).
+  rewrite (fwd_miss_0_1_at z0 (z1 - off)), (fwd_miss_1_0_at (z0 - off) z1).
   split; f_equal; f_equal; extensionality i; extensionality j; unfold fmul; rewrite !KER_phasor;
     rewrite (kernel_compose (ph _ i j) (ph_add _ i j)); f_equal; f_equal; ring.
 Qed.
